@@ -524,7 +524,11 @@ pub(crate) fn load_defs(ctx: &mut Context, defs: Defs) -> Vec<String> {
                             .registry
                             .quantities
                             .insert(dimensionality.clone(), name.clone());
-                        if !ctx.registry.definitions.contains_key(&name) {
+                        // A quantity named like an alias's target must
+                        // not close a cycle of aliases either.
+                        if !ctx.registry.definitions.contains_key(&name)
+                            && !closes_alias_cycle(&ctx.registry, &name, &expr.0)
+                        {
                             ctx.registry
                                 .definitions
                                 .insert(name.clone(), expr.0.clone());
